@@ -3,5 +3,5 @@ From Fiano Require Import Base.Bytes Model.Fmap.
 Require Extraction.
 Require Import ExtrOcamlBasic.
 Extraction Language OCaml.
-Extraction "../ocaml/c13/model.ml" read write read_area write_area checksum_input
+Extraction "../ocaml/c13/model.ml" read write read_area write_area checksum_input json_roundtrip
   mkFmap mkHeader mkArea.
